@@ -114,7 +114,7 @@ def main():
         "setup_cmd": "./check setup",
         "hooks": {
             "guard": "verif",
-            "enable": "go build -tags verif -overlay /verif/.build/overlay.json (all hook/accessor files live under /verif/overlay with //go:build verif and are injected at build time; /repo carries no hook code)",
+            "enable": "go build -tags verif -overlay /verif/.build/overlay.json (all hook/accessor files live under /verif/overlay with //go:build verif and are injected at build time; /repo carries no hook code). Files: overlay/pkg/resmgr/verif_harness.go, overlay/pkg/resmgr/cache/verif_access.go, overlay/pkg/resmgr/control/cpu/verif_access.go, overlay/pkg/agent/verif_access.go, overlay/pkg/agent/verif_agent_test.go, overlay/cmd/plugins/topology-aware/policy/verif_snapshot.go, overlay/cmd/plugins/topology-aware/policy/verif_prefs.go, overlay/cmd/plugins/balloons/policy/verif_snapshot.go, overlay/cmd/plugins/{memory-qos,memtierd,sgx-epc}/verif_side_test.go",
             "baseline_off_cmd": "cd /repo && go test -mod=mod -json -vet=off -count=1 -timeout 25m ./... ; cd /repo/pkg/topology && go test -json -vet=off -count=1 -timeout 25m ./...",
             "source_commits": [],
             "add_only": True,
